@@ -53,6 +53,13 @@ type realType struct{}
 func (realType) Underlying() types.Type { return realType{} }
 func (realType) String() string         { return "real" }
 
+// seqType is a spec-only type: an infinite sequence (total map from int) of elem; its
+// length, where one is meant, is a separate ghost integer.
+type seqType struct{ elem types.Type }
+
+func (s *seqType) Underlying() types.Type { return s }
+func (s *seqType) String() string         { return "seq[" + s.elem.String() + "]" }
+
 type setType struct{ elem types.Type }
 
 func (s *setType) Underlying() types.Type { return s }
